@@ -332,6 +332,23 @@ def r3_alphabets(ctx):
                 raises_invalid = True
     ctx.check(raises_invalid, 'R3', setter.loc, setter.qualname + '.setter', 'setter-validates',
               'the name setter raises for a letter outside the seven pitch letters')
+    # octave setter: every integer octave of the claimed grid (-1..9) is accepted and stored unchanged
+    osetter = ctx.prog.find_setter(ap, 'octave')
+    if osetter is None:
+        raise AnalysisError('anchor vanished: AgnosticPitch.octave setter')
+    op_ = osetter.params[1]
+    rejected, altered = [], []
+    for k in range(-1, 10):
+        end, val, sp_ = F.interpret(ctx, osetter, {op_: k})
+        if end == 'raise':
+            rejected.append(k)
+            continue
+        st_ = [e for e in sp_.events if e.kind == 'store' and isinstance(e.target, ast.Attribute) and e.target.attr.endswith('octave')]
+        if len(st_) != 1 or src(st_[0].expr) != op_:
+            altered.append((k, [src(e.expr)[:30] for e in st_]))
+    ctx.check(not rejected and not altered, 'R3', osetter.loc, osetter.qualname + '.setter', 'octave-setter-accepts-grid',
+              'the octave setter accepts and stores unchanged every octave from -1 to 9 (interpreted for the 11 values)',
+              f'the octave setter rejects {rejected} / alters {altered[:2]}: pitches of that octave can no longer be imported or built')
     okup = bool(stores) and all('.upper()' in src(e.expr) and vp in src(e.expr) for _, e in stores)
     ctx.check(okup, 'R3', setter.loc, setter.qualname + '.setter', 'setter-uppercases',
               'the stored name is the upper-cased argument', f'stored name: {[src(e.expr)[:60] for _, e in stores]}')
